@@ -35,7 +35,9 @@ def handle : Handler := fun op a =>
   | "k9_broadcast_to" => orBad do
       let s ← a.nats "ashape"
       let t ← a.nats "bshape"
-      pure (optShape (broadcastTo s t))
+      match broadcastTo s t with
+      | some r => pure s!"ok ({fmtNats r}),({fmtNats (broadcastFreeAxes s t)})"
+      | none => pure "nothing"
   | "k9_tile" => orBad do
       let s ← a.nats "shape"
       let r ← a.nats "reps"
